@@ -321,6 +321,17 @@ def rejected_ops(h, m, env):
         return "add() with two conflicting names accepted"
     except Exception:
         pass
+    for how in ("named", "arg"):
+        before = dict(m.namespace)
+        try:
+            if how == "named":
+                m.add(h.Signal(name=""))
+            else:
+                m.add(h.Signal(), name="")
+            return "add() under the empty name accepted"
+        except Exception:
+            if dict(m.namespace) != before:
+                return "rejected add() under the empty name still changed the namespace"
     for n in list(m.namespace)[:2]:
         try:
             delattr(m, n)
@@ -437,6 +448,24 @@ def _bundle_history(hist):
     try:
         type("SubB", (h.Bundle,), {})
         return ("sub-classing Bundle accepted", len(hist))
+    except Exception:
+        pass
+    # attribute deletion: members, views and the name
+    snapshot = (dict(bd.namespace), dict(bd.signals), dict(bd.bundles), bd.name)
+    for target in list(bd.namespace)[:2] + ["signals", "bundles", "namespace", "name"]:
+        try:
+            delattr(bd, target)
+            return (f"deletion of {target!r} from a Bundle accepted", len(hist))
+        except Exception:
+            pass
+        try:
+            if (dict(bd.namespace), dict(bd.signals), dict(bd.bundles), bd.name) != snapshot:
+                return (f"refused deletion of {target!r} still changed the Bundle", len(hist))
+        except Exception as e:
+            return (f"after the refused deletion of {target!r} the Bundle is broken: {short_exc(e)}", len(hist))
+    try:
+        bd.add(h.Signal(name=""))
+        return ("add() under the empty name accepted by a Bundle", len(hist))
     except Exception:
         pass
     # additions after elaboration (of a module that uses the bundle, as a port or internally; directly or nested in another
